@@ -31,11 +31,15 @@ ASSUMPTIONS = [
     "csr8: only the least significant byte of load / reload is written",
     "GPIO: the 'input' of the event logic is the synchronised value shown by the `in` CSR (observed after the MultiReg; the synchroniser itself is C05); a "
     "change of mode / edge by software may itself create an edge of the active level (the level model covers it); in Change mode two changes in "
-    "consecutive clock cycles are ONE active pulse, i.e. one event (reported to the main session as an observation, not judged)",
+    "consecutive clock cycles are ONE active pulse, i.e. one event (not judged; the manual configuration 'every change is an event' shows the consequence)",
     "UART: PHY stub = two free stream endpoints (phy.sink.ready free every cycle; phy.source.valid/data free every cycle, no back-pressure: a byte offered "
     "while the RX FIFO is not ready is lost); the FIFO flags are those of the real stream.SyncFIFO(depth 2, buffered) (FIFO correctness is C03/C04/C19); "
     "TX FIFO with fewer than `depth` stored bytes must not be full; a received byte becomes visible within 3 cycles; writing 1 to the rx pending bit "
-    "(and, with rx_fifo_rx_we, reading RXTX) removes exactly the oldest byte if one is visible; one direction per configuration except the tx+rx one (single byte value)",
+    "(and, with rx_fifo_rx_we, reading RXTX) removes exactly the oldest byte if one is visible, nothing else does (read strobe of the RX FIFO compared in every cycle); "
+    "one direction per configuration except the tx+rx one; one byte value (quick) or two (thorough: order of the bytes shown on RXTX)",
+    "client configurations: the bus alphabet is every write pattern of pending / enable, reads of the event registers, and the client registers named in the "
+    "configuration; configurations with two GPIO pins and the UART tx+rx one use a reduced alphabet (pending 1,2,3; enable 3; no reads; one pin's mode/edge "
+    "bits writable per configuration) so that the product closes; idle cycles address an unmapped page",
 ]
 
 
@@ -53,10 +57,15 @@ class ClientHarness(EvHarness):
     tag = "client"
     src_names = ()          # expected bit order of the sources (software contract)
     kinds = ()              # expected kind of every source
+    conf_every = 211
 
-    def __init__(self, name, dw):
+    def __init__(self, name, dw, pend_menu=None, en_menu=None, reads=("ev_pending", "ev_status", "ev_enable")):
         EvHarness.__init__(self, name, [tuple(self.kinds)], dw)
         self.edges = [0] * len(self.kinds)
+        n = len(self.kinds)
+        self.pend_menu = tuple(range(1 << n)) if pend_menu is None else tuple(pend_menu)
+        self.en_menu = tuple(range(1 << n)) if en_menu is None else tuple(en_menu)
+        self.reads = tuple(reads)
 
     # -- to be provided by the client harness ------------------------------------------------------
     def make_client(self):
@@ -112,20 +121,15 @@ class ClientHarness(EvHarness):
         self.man = [dict(n=n, kinds=list(self.kinds), trig=[D.i(s.trigger) for s in srcs], a=a, irq=D.i(ev.irq),
                          pend=D.i(ev.pending.status), stat=D.i(ev.status.status), en=D.i(ev.enable.storage))]
         ops = [("idle",)]
-        for pat in range(1 << n):
-            ops.append(("w", "ev_pending", pat))
-        for pat in self.enable_menu(n):
-            ops.append(("w", "ev_enable", pat))
-        ops += [("r", "ev_pending"), ("r", "ev_status"), ("r", "ev_enable")]
+        ops += [("w", "ev_pending", pat) for pat in self.pend_menu]
+        ops += [("w", "ev_enable", pat) for pat in self.en_menu]
+        ops += [("r", k) for k in self.reads]
         self.ops = ops + list(self.client_ops())
         for op in self.ops:
             if op[0] != "idle" and op[1] not in self.A:
                 raise MachineryError(f"{self.name}: operation {op} on an unknown register")
         self.cins = list(self.client_inputs())
         self.bind_client(D)
-
-    def enable_menu(self, n):
-        return range(1 << n)
 
     def bind_client(self, D):
         pass
@@ -213,9 +217,9 @@ class TimerHarness(ClientHarness):
     src_names = ("zero",)
     kinds = ("rising",)
 
-    def __init__(self, name, dw, values=(0, 1, 2)):
-        ClientHarness.__init__(self, name, dw)
-        self.values = tuple(values)
+    def __init__(self, name, dw, values=(0, 1, 2), with_value=False, **kw):
+        ClientHarness.__init__(self, name, dw, **kw)
+        self.values, self.with_value = tuple(values), with_value
         self.oneshot, self.periodic = set(), set()
 
     def make_client(self):
@@ -228,7 +232,8 @@ class TimerHarness(ClientHarness):
 
     def client_ops(self):
         ops = [("w", "load", x) for x in self.values] + [("w", "reload", x) for x in self.values]
-        return ops + [("w", "en", 0), ("w", "en", 1), ("w", "update_value", 1), ("r", "value")]
+        ops += [("w", "en", 0), ("w", "en", 1)]
+        return ops + ([("w", "update_value", 1), ("r", "value")] if self.with_value else [])
 
     def client_init(self):
         return (0, 0, 0, 0)
@@ -275,11 +280,12 @@ class GpioHarness(ClientHarness):
     """model = (mode, edge, previous input): per pin, from the CSR descriptions "Mode: 0: Edge, 1: Change" / "Edge: 0: Rising Edge, 1: Falling Edge"."""
     tag = "gpio"
 
-    def __init__(self, name, dw, npins, flavour="GPIOIn"):
-        self.npins, self.flavour = npins, flavour
+    def __init__(self, name, dw, npins, flavour="GPIOIn", cfg_menu=None, read_in=True, strict_change=False, **kw):
+        self.npins, self.flavour, self.read_in, self.strict_change = npins, flavour, read_in, strict_change
+        self.cfg_menu = tuple(range(1 << npins)) if cfg_menu is None else tuple(cfg_menu)
         self.src_names = tuple(f"i{n}" for n in range(npins))
         self.kinds = ("rising",) * npins
-        ClientHarness.__init__(self, name, dw)
+        ClientHarness.__init__(self, name, dw, **kw)
         self.seen = set()
 
     def make_client(self):
@@ -299,8 +305,7 @@ class GpioHarness(ClientHarness):
         return dict(mode=g._mode, edge=g._edge, **{"in": g._in})
 
     def client_ops(self):
-        n = self.npins
-        return [("w", "mode", p) for p in range(1 << n)] + [("w", "edge", p) for p in range(1 << n)] + [("r", "in")]
+        return [("w", "mode", p) for p in self.cfg_menu] + [("w", "edge", p) for p in self.cfg_menu] + ([("r", "in")] if self.read_in else [])
 
     def client_inputs(self):
         return list(range(1 << self.npins))
@@ -313,10 +318,10 @@ class GpioHarness(ClientHarness):
         v[self.i_pad] = cin
 
     def client_init(self):
-        return (0, 0, 0)
+        return (0, 0, 0, 0) if self.strict_change else (0, 0, 0)
 
     def client_step(self, v, cenv, op, cin, clear):
-        mode, edge, prev = cenv
+        mode, edge, prev = cenv[:3]
         now = v[self.i_in]
         level = 0
         for n in range(self.npins):
@@ -324,6 +329,10 @@ class GpioHarness(ClientHarness):
             if (mode >> n) & 1:
                 active = x != x_prev                      # Change
                 what = ("change", x)
+                if self.strict_change and active and (cenv[3] >> n) & 1 and (clear >> n) & 1:
+                    # manual configuration only (see the note in register_all): every change counted as an event of its own
+                    return 0, cenv, ("gpio.change.merged", f"Change mode, pin {n}: the input changed in two consecutive cycles; the second change coincides with the "
+                                                           "acknowledge of the event and is not retained (the active pulse has no new rising edge)")
             elif (edge >> n) & 1:
                 active = x == 0                            # Edge, falling: the event is the arrival at 0
                 what = ("falling", x)
@@ -339,16 +348,18 @@ class GpioHarness(ClientHarness):
                 mode = op[2]
             elif op[1] == "edge":
                 edge = op[2]
-        return level, (mode, edge, now), None
+        return level, ((mode, edge, now, level) if self.strict_change else (mode, edge, now)), None
 
     def explain(self, cenv):
-        return "mode %s, edge %s, previous input %s" % tuple(bin(x) for x in cenv)
+        return "mode %s, edge %s, previous input %s" % tuple(bin(x) for x in cenv[:3])
 
     def client_cover(self):
         return dict(input_edges_that_fired=sorted("%s->%d" % w for w in self.seen))
 
     def client_vacuity(self):
-        need = {("change", 0), ("change", 1), ("falling", 0), ("rising", 1)}
+        need = {("rising", 1)}
+        if any(m & 1 for m in self.cfg_menu) or any(m & 2 for m in self.cfg_menu):
+            need |= {("change", 0), ("change", 1), ("falling", 0)}
         if not need <= self.seen:
             return f"input edges not all exercised: {need - self.seen}"
         return None
@@ -374,8 +385,8 @@ class UartHarness(ClientHarness):
     src_names = ("tx", "rx")        # UART_EV_TX = 0x1, UART_EV_RX = 0x2 (litex/soc/software/include/hw/flags.h)
     kinds = ("rising", "rising")
 
-    def __init__(self, name, dw, side, depth=2, rx_we=False, bytes_=(0x41, 0xBE)):
-        ClientHarness.__init__(self, name, dw)
+    def __init__(self, name, dw, side, depth=2, rx_we=False, bytes_=(0x41, 0xBE), **kw):
+        ClientHarness.__init__(self, name, dw, **kw)
         self.side, self.depth, self.rx_we, self.bytes = side, depth, rx_we, tuple(bytes_)
         self.pops = self.pops_with_more = self.tx_full = self.rx_dropped = self.pop_by_read = 0
 
@@ -388,9 +399,6 @@ class UartHarness(ClientHarness):
         u = self.client
         return dict(rxtx=u._rxtx, txfull=u._txfull, rxempty=u._rxempty)
 
-    def enable_menu(self, n):
-        return range(1 << n) if self.side != "both" else (0, 3)
-
     def client_ops(self):
         ops = []
         if self.side in ("tx", "both"):
@@ -401,7 +409,7 @@ class UartHarness(ClientHarness):
 
     def client_inputs(self):
         rdy = (0, 1) if self.side in ("tx", "both") else (1,)
-        rx = ((-1,) + (self.bytes if self.side == "rx" else self.bytes[:1])) if self.side in ("rx", "both") else (-1,)
+        rx = ((-1,) + self.bytes) if self.side in ("rx", "both") else (-1,)
         return [(a, b) for a in rdy for b in rx]
 
     def bind_client(self, D):
@@ -505,23 +513,33 @@ def register_all(REGISTRY):
         reg(name, tier, lambda: GpioHarness(name, dw, n, **kw))
     def uart(name, tier, dw, side, **kw):
         reg(name, tier, lambda: UartHarness(name, dw, side, **kw))
+    E2 = ("ev_pending", "ev_status")
     timer("Timer(load/reload<=2),csr8", "quick", 8)
-    timer("Timer(load/reload<=2),csr32", "quick", 32)
-    timer("Timer(load/reload 0,1,3),csr32", "thorough", 32, values=(0, 1, 3))
+    timer("Timer(load/reload 0,2),csr32", "quick", 32, values=(0, 2))
+    timer("Timer(load/reload<=2,update_value),csr32", "thorough", 32, with_value=True)
+    timer("Timer(load/reload 0,1,3),csr8", "thorough", 8, values=(0, 1, 3))
     gpio("GPIOIn(1 pin,irq),csr8", "quick", 8, 1)
-    gpio("GPIOIn(2 pins,irq),csr8", "quick", 8, 2)
-    gpio("GPIOIn(1 pin,irq),csr32", "thorough", 32, 1)
-    gpio("GPIOIn(2 pins,irq),csr32", "thorough", 32, 2)
     gpio("GPIOTristate(1 pin,irq),csr32", "quick", 32, 1, flavour="GPIOTristate")
-    gpio("GPIOTristate(2 pins,irq),csr8", "thorough", 8, 2, flavour="GPIOTristate")
-    uart("UART(tx,fifo 2),csr8", "quick", 8, "tx")
-    uart("UART(rx,fifo 2),csr8", "quick", 8, "rx")
-    uart("UART(rx,fifo 2,rx_fifo_rx_we),csr32", "quick", 32, "rx", rx_we=True)
-    uart("UART(tx,fifo 2),csr32", "thorough", 32, "tx")
-    uart("UART(rx,fifo 2),csr32", "thorough", 32, "rx")
-    uart("UART(tx+rx,fifo 2,one byte value),csr8", "thorough", 8, "both")
-    uart("UART(rx,fifo 4),csr8", "thorough", 8, "rx", depth=4)
-    uart("UART(tx,fifo 4),csr8", "thorough", 8, "tx", depth=4)
+    gpio("GPIOIn(1 pin,irq),csr32", "thorough", 32, 1)
+    # two pins: the product of the two pins' pipelines, events and configuration bits only closes with a reduced bus alphabet
+    small = dict(pend_menu=(1, 2, 3), en_menu=(3,), reads=(), read_in=False)
+    gpio("GPIOIn(2 pins,irq,reset configuration),csr8", "quick", 8, 2, cfg_menu=(), **small)
+    gpio("GPIOIn(2 pins,irq,pin 0 configurable),csr8", "thorough", 8, 2, cfg_menu=(1,), **small)
+    gpio("GPIOIn(2 pins,irq,pin 1 configurable),csr32", "thorough", 32, 2, cfg_menu=(2,), **small)
+    gpio("GPIOTristate(2 pins,irq,reset configuration),csr32", "thorough", 32, 2, flavour="GPIOTristate", cfg_menu=(), **small)
+    # Not part of any tier (selected only with VERIF_C15_MANUAL=1): reads "mode 1 = any change" as "every change is an event of its own".  The real
+    # _GPIOIRQ merges two changes in consecutive cycles into one active pulse, so the second one is lost when it meets the acknowledge (observation
+    # reported to the main session; the property speaks about the manager's behaviour w.r.t. its trigger, which is respected).
+    gpio("GPIOIn(1 pin,irq,every change is an event),csr8", "manual", 8, 1, strict_change=True)
+    uart("UART(tx,fifo 2),csr8", "quick", 8, "tx", bytes_=(0x41,))
+    uart("UART(rx,fifo 2,one byte value),csr8", "quick", 8, "rx", bytes_=(0x41,), en_menu=(0, 3), reads=E2)
+    uart("UART(rx,fifo 2,one byte value,rx_fifo_rx_we),csr32", "quick", 32, "rx", bytes_=(0x41,), rx_we=True, en_menu=(0, 3), reads=E2)
+    uart("UART(tx,fifo 2),csr32", "thorough", 32, "tx", bytes_=(0x41,))
+    uart("UART(rx,fifo 2,two byte values),csr8", "thorough", 8, "rx", en_menu=(0, 3), reads=E2)
+    uart("UART(rx,fifo 2,two byte values,rx_fifo_rx_we),csr8", "thorough", 8, "rx", rx_we=True, en_menu=(0, 3), reads=E2)
+    uart("UART(tx+rx,fifo 2,one byte value),csr8", "thorough", 8, "both", bytes_=(0x41,), pend_menu=(1, 2, 3), en_menu=(3,), reads=())
+    uart("UART(rx,fifo 4,one byte value),csr8", "thorough", 8, "rx", depth=4, bytes_=(0x41,), en_menu=(0, 3), reads=E2)
+    uart("UART(tx,fifo 4),csr8", "thorough", 8, "tx", depth=4, bytes_=(0x41,), en_menu=(0, 3), reads=E2)
 
 
 # Registration into the module the runner loads (works whichever of the two modules is imported first).
